@@ -1,4 +1,5 @@
 import UtilModel.Lemmas.SemOrder
+import UtilModel.Lemmas.CodeTies
 /-!
 # C14 — Version comparison is a coherent order and next/latest respect it
 
@@ -145,5 +146,10 @@ example : comparePre [97, 48, 49] [97, 49] = 0 := by decide            -- a01 vs
 example : comparePre [97, 49] [97, 48, 50] = -1 := by decide           -- a1 < a02
 example : (⟨1, 0, 0, [114, 99, 49, 48], [120]⟩ : Ver).compare ⟨1, 0, 0, [], []⟩ = -1 := by decide
 example : (⟨18446744073709551615, 0, 0, [], []⟩ : Ver).nextMajor = .panic := by decide
+
+/-- **tie to the source**: `Ver.Compare` as translated from `sem/version.go` on this run is the model's `compare` -/
+theorem compare_code_tie (v w : Ver) :
+    v.compare w = Gen.sem_Compare comparePre v.major v.minor v.patch v.pre w.major w.minor w.patch w.pre :=
+  CodeTies.compare_tie v w
 
 end U.Props.C14
